@@ -89,6 +89,13 @@ let cstate_str (c : cstate) : string =
   | MultipleVar -> "MULTIPLE_VARIABLE_FIELDS" | NestedVar -> "NESTED_VARIABLE_GROUPS"
   | Mismatched -> "MISMATCHED_SIZE" | CDivZero -> "DIVZERO" | CBug -> "MODELBUG"
 
+let gstate_str (g : gstate) : string =
+  match g with
+  | GInsufficient -> "INSUFFICIENT_TOKENS" | GExtra -> "EXTRA_TOKENS" | GMismatched -> "MISMATCHED_TOKENS"
+  | GMultipleVar -> "MULTIPLE_VARIABLE_GROUPS" | GNestedVar -> "NESTED_VARIABLE_GROUPS"
+  | GSingleVar k -> Printf.sprintf "SINGLE_VARIABLE_GROUP:%d" (int_of_n k)
+  | GNoVar -> "NO_VARIABLE_GROUPS" | GDivZero -> "DIVZERO"
+
 let lookup (man : int) (pid : int) (kind : int) : fd list option =
   let rec go l = match l with
     | [] -> None
@@ -99,7 +106,9 @@ let lookup (man : int) (pid : int) (kind : int) : fd list option =
 let run (src : string) (fs : fd list) (prev : int) (hex : string) (label : string) : string =
   let bs = bytes_of_hex hex in
   let cs = calc (len bs) fs in
-  let head = Printf.sprintf "d=%s;cc=%s;cs=%s" (desc_str fs) (bool01 (consistent fs)) (cstate_str cs) in
+  (* GroupSizeCalculator, with the payload length taken as the token count *)
+  let head = Printf.sprintf "d=%s;cc=%s;cs=%s;gs=%s" (desc_str fs) (bool01 (consistent fs)) (cstate_str cs)
+      (gstate_str (gcalc (len bs) fs)) in
   let csk = match cs with VarString _ -> "VARIABLE_STRING" | VarGroup _ -> "VARIABLE_GROUP" | c -> cstate_str c in
   let cls = Printf.sprintf ";class=%s:%s:%s:%s" src (if wf_desc fs then "wf" else "nonwf") csk label in
   match inflate (n_of_int prev) fs bs with
@@ -123,8 +132,12 @@ let run (src : string) (fs : fd list) (prev : int) (hex : string) (label : strin
     let capk = match serialize_space (n_of_int 256) m with
       | SOk st -> string_of_int (int_of_n st.cap)
       | SOverflow -> "OVERFLOW" | SNoFuel -> "NOFUEL" in
-    Printf.sprintf "%s;r=msg;m=%s;ser=%s;same=%s;again=%s;cap=%s%s%s%s" head (msg_str m) (hex_of_bytes out)
-      (bool01 (out = bs)) again capk known cls spec
+    (* the same message through a reused serializer whose buffer is full of 0xff *)
+    let stale = List.init (List.length bs + 64) (fun _ -> n_of_int 255) in
+    let sh = serialize_into stale m in
+    let shk = if sh = out then "same" else hex_of_bytes sh in
+    Printf.sprintf "%s;r=msg;m=%s;ser=%s;same=%s;again=%s;cap=%s;shared=%s%s%s%s" head (msg_str m) (hex_of_bytes out)
+      (bool01 (out = bs)) again capk shk known cls spec
 
 let handle (p : string) : string =
   match split p with
